@@ -277,7 +277,8 @@ Definition scatalog_ok (dec : decoder) (c : scatalog) : Prop :=
   Forall (fun t => trimmed t /\ ~ In 10 t) (sc_header c) /\
   Forall (sentry_ok dec) (sc_entries c) /\
   match sc_entries c with
-  | e :: _ => match s_pre e with CTrans _ :: _ => False | _ => True end
+  | e :: _ => match s_pre e with CTrans _ :: _ => False | _ => True end /\
+              match filter (fun cl => match cl with CPrev _ _ => false | _ => true end) (s_pre e) with CTrans _ :: _ => False | _ => True end
   | [] => True
   end.
 
